@@ -1633,6 +1633,8 @@ impl StreamingQueueCompressor {
                         sequence,
                         is_sync_token: true,
                     };
+                    #[cfg(ragc_verif)]
+                    crate::verif_hooks::log_event("P TOK pack".to_string());
                     self.queue.push(sync_token, 0)?;
                 }
 
@@ -1683,6 +1685,8 @@ impl StreamingQueueCompressor {
                                 sequence,
                                 is_sync_token: true,
                             };
+                            #[cfg(ragc_verif)]
+                            crate::verif_hooks::log_event("P TOK sample".to_string());
                             self.queue.push(sync_token, 0)?; // 0 size for sync tokens
                         }
                     } else if self.config.verbosity > 1 {
@@ -1714,6 +1718,8 @@ impl StreamingQueueCompressor {
         // Queue is now a priority queue - highest priority processed first
         // eprintln!("[RAGC PUSH] sample={} contig={} priority={} cost={} sequence={}",
         //           &task.sample_name, &task.contig_name, task.sample_priority, task.cost, task.sequence);
+        #[cfg(ragc_verif)]
+        crate::verif_hooks::log_event(format!("P CTG {}", task_size));
         self.queue
             .push(task, task_size)
             .context("Failed to push to queue")?;
@@ -1778,6 +1784,8 @@ impl StreamingQueueCompressor {
                 sequence,
                 is_sync_token: true,
             };
+            #[cfg(ragc_verif)]
+            crate::verif_hooks::log_event("P TOK flush".to_string());
             self.queue.push(sync_token, 0)?;
         }
 
@@ -1817,6 +1825,8 @@ impl StreamingQueueCompressor {
                 sequence,
                 is_sync_token: true,
             };
+            #[cfg(ragc_verif)]
+            crate::verif_hooks::log_event("P TOK flush".to_string());
             self.queue.push(sync_token, 0)?;
         }
 
@@ -1839,6 +1849,8 @@ impl StreamingQueueCompressor {
                 .expect("Worker thread panicked")
                 .with_context(|| format!("Worker {} failed", i))?;
         }
+        #[cfg(ragc_verif)]
+        crate::verif_hooks::log_event("P JOINED".to_string());
 
         if self.config.verbosity > 0 {
             eprintln!(
@@ -4123,6 +4135,18 @@ fn classify_raw_segments_at_barrier(
         raw_segs.append(&mut *worker_segs);
     }
 
+    #[cfg(ragc_verif)]
+    {
+        // round composition: the (sample, contig) pairs whose segments were drained for this round
+        let mut round: Vec<String> = raw_segs
+            .iter()
+            .map(|r| format!("{}\t{}", r.sample_name, r.contig_name))
+            .collect();
+        round.sort();
+        round.dedup();
+        crate::verif_hooks::log_event(format!("ROUND {}", round.join("\u{1}")));
+    }
+
     if raw_segs.is_empty() {
         return;
     }
@@ -5037,6 +5061,8 @@ fn worker_thread(
         // Pull from queue (blocks if empty, returns None when closed)
         let queue_start = std::time::Instant::now();
         let Some(task) = queue.pull() else {
+            #[cfg(ragc_verif)]
+            crate::verif_hooks::log_event(format!("W {} EXIT", worker_id));
             // Print timing summary on exit
             if config.verbosity > 0 {
                 eprintln!("Worker {} TIMING: queue_wait={:?} segment_proc={:?} barrier_wait={:?} sync_proc={:?} contigs={} syncs={}",
@@ -5076,6 +5102,15 @@ fn worker_thread(
 
         let queue_wait = queue_start.elapsed();
         total_queue_wait += queue_wait;
+        #[cfg(ragc_verif)]
+        {
+            crate::verif_hooks::log_event(if task.is_sync_token {
+                format!("W {} TOK", worker_id)
+            } else {
+                format!("W {} CTG {}\t{}", worker_id, task.sample_name, task.contig_name)
+            });
+            crate::verif_hooks::yield_point(10);
+        }
 
         // Handle sync tokens with barrier synchronization (matches C++ AGC registration stage)
         if task.is_sync_token {
@@ -5094,6 +5129,11 @@ fn worker_thread(
 
             // Barrier 1: All workers arrive at sample boundary
             let barrier_start = std::time::Instant::now();
+            #[cfg(ragc_verif)]
+            {
+                crate::verif_hooks::yield_point(11);
+                crate::verif_hooks::log_event(format!("W {} B1", worker_id));
+            }
             barrier.wait();
             total_barrier_wait += barrier_start.elapsed();
 
@@ -5157,6 +5197,11 @@ fn worker_thread(
 
             // Barrier 2: All workers see prepared buffers
             let barrier_start = std::time::Instant::now();
+            #[cfg(ragc_verif)]
+            {
+                crate::verif_hooks::yield_point(12);
+                crate::verif_hooks::log_event(format!("W {} B2", worker_id));
+            }
             barrier.wait();
             total_barrier_wait += barrier_start.elapsed();
 
@@ -5168,6 +5213,11 @@ fn worker_thread(
                 let Some(idx) = parallel_state.claim_next_idx() else {
                     break;
                 };
+                #[cfg(ragc_verif)]
+                {
+                    crate::verif_hooks::log_event(format!("W {} CLAIM {}", worker_id, idx));
+                    crate::verif_hooks::yield_point(15);
+                }
 
                 if let Some((key, mut buffer)) = parallel_state.get_buffer_at(idx) {
                     // Compress this buffer
@@ -5201,6 +5251,11 @@ fn worker_thread(
 
             // Barrier 3: All workers done with compression and buffering
             let barrier_start = std::time::Instant::now();
+            #[cfg(ragc_verif)]
+            {
+                crate::verif_hooks::yield_point(13);
+                crate::verif_hooks::log_event(format!("W {} B3", worker_id));
+            }
             barrier.wait();
             total_barrier_wait += barrier_start.elapsed();
 
@@ -5275,8 +5330,15 @@ fn worker_thread(
 
             // Barrier 4: All workers ready for next batch (reduced from 2 barriers)
             let barrier_start = std::time::Instant::now();
+            #[cfg(ragc_verif)]
+            {
+                crate::verif_hooks::yield_point(14);
+                crate::verif_hooks::log_event(format!("W {} B4", worker_id));
+            }
             barrier.wait();
             total_barrier_wait += barrier_start.elapsed();
+            #[cfg(ragc_verif)]
+            crate::verif_hooks::log_event(format!("W {} ROUND-DONE", worker_id));
 
             // Track total sync token processing time
             total_sync_processing += sync_start.elapsed();
@@ -5392,10 +5454,14 @@ fn worker_thread(
 
         // ONE lock acquisition for entire contig (reduces contention significantly)
         // Push to this worker's own buffer (NO CONTENTION - each worker has its own buffer)
+        #[cfg(ragc_verif)]
+        crate::verif_hooks::yield_point(16);
         raw_segment_buffers[worker_id]
             .lock()
             .unwrap()
             .extend(contig_segments);
+        #[cfg(ragc_verif)]
+        crate::verif_hooks::log_event(format!("W {} SEGMENTED", worker_id));
 
         // End timing for segment processing
         total_segment_processing += segment_start.elapsed();
